@@ -1148,6 +1148,8 @@ class Engine:
                     return a * b
                 if op == 'fdiv':
                     if b == 0.0:
+                        if s.o.get('fp_traps') and a == a:
+                            raise Violation('fp-trap', _TRAPMSG % (('0 / 0', 'invalid-operation') if a == 0.0 else ('division of a non-zero value by zero', 'divide-by-zero')))
                         if a != a or a == 0.0:
                             return float('nan')
                         return math.copysign(float('inf'), a) * math.copysign(1.0, b)
@@ -2130,6 +2132,8 @@ def _sqrt(s, st, a, ins):
     v = a[0]
     if isinstance(v, float):
         if v < 0:
+            if s.o.get('fp_traps'):
+                raise Violation('fp-trap', _TRAPMSG % ('sqrt of a negative value', 'invalid-operation'))
             return float('nan')
         if s.o['fp'] != 'real' or not s.o.get('exact_roots') or _is_square_float(v):
             return math.sqrt(v)
@@ -2185,6 +2189,7 @@ def _pow(s, st, a, ins):
 
 
 _UF = {}
+_TRAPMSG = '%s raises the %s floating-point exception, which cimba_run_experiment unmasks for its trials (SIGFPE)'
 
 
 def _libm_unsupported(name):
@@ -2209,7 +2214,17 @@ def _libm_unsupported(name):
                     if not okn:
                         raise PathEnd()
                     s.assume(st, x >= 0, mn)
-                ok0, m0 = s.may_unsure(st, x == 0)
+                if s.o.get('fp_traps'):
+                    ok0, m0 = s.may(st, x == 0)
+                    if ok0:
+                        s.report(st, 'fp-trap', _TRAPMSG % ('log of zero', 'divide-by-zero'), x == 0, m0)
+                        okp, mp = s.may(st, x > 0)
+                        if not okp:
+                            raise PathEnd()
+                        s.assume(st, x > 0, mp)
+                    ok0 = False
+                else:
+                    ok0, m0 = s.may_unsure(st, x == 0)
                 if ok0:
                     # log(0) = -inf: harmless when only compared, a violation once it enters arithmetic or the result
                     okp, mp = s.may_unsure(st, x > 0)
@@ -2235,6 +2250,8 @@ def _libm_unsupported(name):
             try:
                 return float(fn(*a))
             except (ValueError, OverflowError):
+                if s.o.get('fp_traps') and name in ('log', 'log2', 'log10', 'log1p') and all(x == x for x in a):
+                    raise Violation('fp-trap', _TRAPMSG % (('%s of zero' % name, 'divide-by-zero') if a[0] in (0.0, -1.0) else ('%s of a negative value' % name, 'invalid-operation')))
                 if name == 'log' and a[0] == 0.0:
                     return float('-inf')
                 if name == 'exp':
